@@ -45,11 +45,19 @@ def check_site(ctx, rule: str, fn: ast.AST, site: sub.Site, what: str, word_boun
     for (p, pfn, binds) in pats:
         info = sub.pattern_anchoring(p, pfn, binds)
         ok = bool(info["escaped_keys"]) and info["left"] and info["right"] and not info["raw_interpolation"]
-        weak = ok and info.get("left_kind") != "strong"
+        lk = str(info.get("left_kind") or "")
+        wide = lk.startswith("wide:")
+        weak = ok and lk != "strong" and not wide
         if weak and not word_boundary_ok:
+            ok = False
+        if wide:
             ok = False
         ok_all = ok_all and ok
         why = []
+        if wide:
+            why.append("the look-behind also excludes %s (a range inside the character class?): an occurrence that directly follows one of these "
+                       "characters - '--inputs=stage0.A/a:ref,stage0.B/b:ref', \"sh -c 'cat stage0.A/out.txt:ref'\", '$((1+stage0.N:output))' - is "
+                       "taken for the inside of a longer reference and stays in the command line verbatim" % " ".join(repr(c) for c in lk[5:]))
         if weak and not word_boundary_ok:
             why.append("the left anchor does not exclude all of '.', '#', '/' and word characters, which are legal inside a longer "
                        "reference: the key also matches inside 'stage1.<key>', '0#<key>', 'data/<key>' (or inside text inserted by an "
